@@ -337,8 +337,8 @@ register(_raw(Prop('C07', 'FindSequenceOnDisk', props.c07_cases, props.c07_oracl
 register(Prop('C14', 'huge ranges answered arithmetically', props.c14_cases, props.c14_oracle,
               partial='time and allocation of the implementation are measured (1 MiB / 2 s per case), not proved',
               rule='single-component ranges with |A|,|B| up to 1e13, steps up to 1e6, queries at boundaries / interior / non-members'))
-register(_raw(Prop('C15', 'no input crashes the API; IsFrameRange = parser', props.c15_cases, props.c15_oracle,
-              partial='Format with arbitrary templates and stdlib internals are outside the model',
+register(_raw(Prop('C15', 'no input crashes the API; IsFrameRange = parser', props.c15_cases, props.c15_oracle, special=special.c15_special,
+              partial='Format with arbitrary templates, Frame with arbitrary values and the stdlib are outside the model: covered by native fuzzing (go test -fuzz) only',
               rule='mutated grammar-derived byte strings (numbers capped at 4 digits) through 8 entry points')))
 
 register(Prop('C18', 'seqinfo reports the library parse', None, None, special=special.c18_special,
